@@ -466,7 +466,7 @@ ROUND3 = {
     'C26': ' Second part (shared with C25): query/update histories on a bare TypeSystem (edges in every order, one edge that only shortens an existing path, the numeric tower); every cached answer of is_subclass, is_subtype, is_maybe_subtype, subtype_distance, get_subclasses, get_superclasses is compared with the answer after emptying every lru cache.',
     'C27': ' Also proved: a method is registered as under test only if get_class_that_defined_method (assumed, an uninterpreted defining-class function) returns exactly the analysed class (__is_method_defined_in_class). The bounded subject module contains a subclass of an equally named class of another module, and a method counts as defined where its code lives.',
     'C28': ' Also bounded: MutationController.mutant_count before and after (capped, reordered) enumerations through create_mutants equals the size of the full enumeration, and the enumeration yields min(cap, total) mutants.',
-    'C29': ' The sandbox also holds pre-existing siblings whose names merely start like paths the operations create (newdir.bak, new.txt.orig, newdirx/keep.txt), with four operations writing to them.',
+    'C29': ' Also proved: _is_isolated returns True exactly when the normalised path or one of its ancestors (os.path.dirname applied n times, an uninterpreted function with its defining equations and the fixed-point consequence as hypotheses) is in the created set; termination of the walk is not proved. The sandbox also holds pre-existing siblings whose names merely start like paths the operations create (newdir.bak, new.txt.orig, newdirx/keep.txt), with four operations writing to them.',
     'C30': ' Second part: six test cases that change process-wide state and then never return (abandoned by the executor after 0.3 s), each followed by two probes; same state comparison and order-independence check.',
     'C32': " 'Within the bound plus grace' is decided by the time-outs execute() passes to Thread.join (all finite, sum <= 2 x bound); the wall clock counts only relative to a reference wait of the same shape taken at the same moment (three attempts), so a loaded machine does not alarm.",
 }
